@@ -18,4 +18,15 @@ for f in sorted(glob.glob('/verif/evidence/C*.json')):
         print('MISMATCH', pid, len(names), d['coverage']['discharged'])
     led[pid] = names
 json.dump(led, open('/verif/ledger.json', 'w'), indent=1)
+# hashes of the pinned tree's Go files (as the engine computes them): an obligation of the ledger that gets no solver
+# answer while its package and all contract files still have these hashes is reported as undecided, not as a violation
+import hashlib, os
+base = {}
+for root, dirs, files in os.walk('/repo'):
+    dirs[:] = [d for d in dirs if d != '.git']
+    for f in files:
+        if f.endswith('.go'):
+            p = os.path.join(root, f)
+            base[os.path.relpath(p, '/repo')] = hashlib.sha256(open(p, 'rb').read()).hexdigest()[:16]
+json.dump(base, open('/verif/baseline_hashes.json', 'w'), indent=1, sort_keys=True)
 print('ledger rebuilt')
